@@ -99,6 +99,27 @@ fn space(tier: vhcore::Tier) -> Space {
             push_matrices(&mut cases, ty, &alpha, arms);
         }
     }
+    // every matrix that contains an integer literal also in its suffixed spelling (`0u8`): the
+    // compiler analyses suffixed literals on the type's own range (Pattern::U8), unsuffixed ones as
+    // Pattern::Numeric on the u64 range — two different code paths of the usefulness algorithm
+    let twins: Vec<Case> = cases
+        .iter()
+        .filter(|c| {
+            let mut has = false;
+            for a in &c.arms {
+                a.walk(&mut |p| {
+                    if matches!(p, vh_comp::matchgen::Pat::Int(_)) {
+                        has = true;
+                    }
+                });
+            }
+            has
+        })
+        .map(|c| Case { ty: c.ty, arms: c.arms.iter().map(vh_comp::matchgen::suffix_ints).collect() })
+        .collect();
+    closed += twins.len() as u64;
+    description.push(format!("{} matrices with integer literals are repeated with suffixed literals (`255u8`)", twins.len()));
+    cases.extend(twins);
     description.push(format!(
         "alphabet level per arm count: {}",
         lv.iter().enumerate().map(|(k, l)| format!("{} arm(s): {}", k + 1, l.name())).collect::<Vec<_>>().join(", ")
